@@ -136,6 +136,7 @@ class Check:
         shutil.rmtree(self.casedir, ignore_errors=True)
         os.makedirs(self.casedir, exist_ok=True)
         self.scratch = []
+        self.tmpbins = []
 
     # ------------------------------------------------------------------ utilities
     def thorough(self):
@@ -154,6 +155,12 @@ class Check:
         for d in self.scratch:
             shutil.rmtree(d, ignore_errors=True)
         self.scratch = []
+        for b in self.tmpbins:
+            try:
+                os.remove(b)
+            except OSError:
+                pass
+        self.tmpbins = []
 
     # ------------------------------------------------------------------ translator
     def genmodel(self, which=None):
@@ -240,7 +247,10 @@ class Check:
     def go_build(self, pkg, outname=None, tags="verif", race=False, cwd=None, timeout=1500):
         cwd = cwd or HARNESS
         outname = outname or os.path.basename(pkg.rstrip("/"))
-        exe = os.path.join(BIN, outname)
+        # per-process output name: concurrent checks (possibly against different VERIF_REPO roots) never
+        # see each other's binaries; removed by cleanup()
+        exe = os.path.join(BIN, "%s.%d" % (outname, os.getpid()))
+        self.tmpbins.append(exe)
         with Lock("gomod"):
             try:
                 shutil.copyfile(os.path.join(REPO, "go.sum"), os.path.join(cwd, "go.sum"))
@@ -265,7 +275,8 @@ class Check:
 
     def build_repo_cmd(self, pkg, outname, tags="verif", race=False, timeout=1500):
         """Build a command of /repo itself (e.g. ./cmd/staticcheck) from the current working tree."""
-        exe = os.path.join(BIN, outname)
+        exe = os.path.join(BIN, "%s.%d" % (outname, os.getpid()))
+        self.tmpbins.append(exe)
         cmd = ["go", "build", "-tags", tags, "-o", exe]
         if race:
             cmd.append("-race")
